@@ -185,7 +185,7 @@ Definition update_worklist (w : list block) (rs : list (block * block * block)) 
        let '(y, i, d) := r in
        match remove_first_set y w with
        | Some w' => w' ++ [i; d]
-       | None => if Nat.leb (length i) (length d) then w ++ [i] else w ++ [d]
+       | None => w ++ [i; d]
        end)
     rs w.
 
